@@ -121,3 +121,33 @@ def map_merge(self, base_maps, base_sibs, run_maps, run_sibs):
         and exists(lambda i: item(at(result, 'new_sibs'), k) > item(base_sibs, i), 0, nitems(base_sibs)),
         0, nitems(at(result, 'new_sibs')))))
     ensures("youngest_is_first_candidate", implies(result is not None, at(result, 'youngest_sib') == item(run_sibs, 0)))
+
+
+@spec
+def all_conflict_free(maps):
+    return forall(lambda k: is_obj(item(maps, k)) and is_list(item(maps, k).conflict_keys)
+                  and item(maps, k).conflict_keys is not maps and nitems(item(maps, k).conflict_keys) == 0, 0, nitems(maps))
+
+
+@target("pedal.cait.stretchy_tree_matching:StretchyTreeMatcher.binflex_helper")
+def binflex_helper(self, case_left, case_right, new_mappings, base_mappings, use_previous=None):
+    """operand matches of a commutative operator are combined only into maps without a conflicting binding"""
+    requires(is_list(case_left) and is_list(case_right) and is_list(new_mappings) and is_list(base_mappings))
+    requires(distinct(case_left, new_mappings) and distinct(case_right, new_mappings) and distinct(base_mappings, new_mappings))
+    requires(nitems(base_mappings) >= 1 and instance_of(item(base_mappings, 0), AstMap) and all_conflict_free(new_mappings))
+    abstract("base_mappings[0].new_merged_map(case_l).new_merged_map", raises=None, label="merged_left",
+             ensures=[exact_instance(result, AstMap), fresh(result), is_list(result.conflict_keys), fresh(result.conflict_keys)])
+    abstract("base_mappings[0].new_merged_map", raises=None, label="merged_base",
+             ensures=[exact_instance(result, AstMap), fresh(result), is_list(result.conflict_keys), fresh(result.conflict_keys)])
+    abstract("new_map.new_merged_map", raises=None, label="merged_both",
+             ensures=[exact_instance(result, AstMap), fresh(result), is_list(result.conflict_keys), fresh(result.conflict_keys)])
+    modifies(items(new_mappings))
+    raises_nothing()
+    invariant(1, "conflict_free", is_list(new_mappings) and all_conflict_free(new_mappings)
+              and nitems(new_mappings) >= entry(nitems(new_mappings)), modifies=[items(new_mappings)])
+    invariant(2, "conflict_free", is_list(new_mappings) and all_conflict_free(new_mappings)
+              and nitems(new_mappings) >= entry(nitems(new_mappings)), modifies=[items(new_mappings)])
+    ensures("only_conflict_free_maps_added", all_conflict_free(new_mappings))
+    ensures("earlier_maps_kept", nitems(new_mappings) >= old(nitems(new_mappings)))
+    ensures("one_side_unmatched_adds_nothing", implies(nitems(case_left) == 0 or nitems(case_right) == 0,
+                                                       same_seq(items(new_mappings), old(items(new_mappings)))))
